@@ -350,7 +350,7 @@ def c_ops(hist):
             out.append("Write (R %d %d)" % (DNUM[op[1]], i))
             i += 1
         else:
-            out.append({"F": "Flush", "C": "Close", "X": "WithExit", "Del": "Del"}[op])
+            out.append({"F": "Flush", "C": "Close", "X": "WithExit", "E": "WithExitExc", "K": "WithExitExc", "Del": "Del"}[op])
     return clist(out)
 
 
@@ -467,7 +467,29 @@ class Case:
 # ------------------------------------------------------------------------------------------------------
 # 1. histories on one writer
 
-OPS = ["WA", "WB", "F", "C", "X"]
+# X: the with-block is left normally; E: it is left by an exception (an Exception subclass); K: by KeyboardInterrupt
+OPS = ["WA", "WB", "F", "C", "X", "E"]
+EXITS = ("X", "E", "K")
+
+
+class _Boom(Exception):
+    pass
+
+
+def leave_with_block(w, kind):
+    """leave a with-block on w: normally (X), by an exception of the user's code (E) or by KeyboardInterrupt (K).
+    An exception other than the one raised inside the block propagates (the operation then counts as Raised)."""
+    if kind == "X":
+        with w:
+            pass
+        return
+    exc = _Boom("raised inside the with-block") if kind == "E" else KeyboardInterrupt()
+    try:
+        with w:
+            raise exc
+    except BaseException as e:  # noqa
+        if e is not exc:
+            raise
 
 
 def sqlite_order(recs):
@@ -500,8 +522,8 @@ def run_history(tname, hist, workdir):
                 w.flush()
             elif op == "C":
                 w.close()
-            elif op == "X":
-                w.__exit__(None, None, None)
+            elif op in EXITS:
+                leave_with_block(w, op)
             outs.append("Ok")
         except Exception as e:  # noqa
             outs.append("Raised")
@@ -517,7 +539,7 @@ def run_history(tname, hist, workdir):
 def history_case(tname, hist, workdir):
     k, family, ext, wuri, ruri, codec, batch = TARGETS[tname]
     outs, written, obs1, obs2, errors = run_history(tname, hist, workdir)
-    has_close = any(op in ("C", "X") for op in hist)
+    has_close = any(op in ("C",) + EXITS for op in hist)
     expected = sqlite_order(written) if family == "sqlite" else written
     problems = []
     for label, obs in ((("closed, before del", obs1),) if has_close else ()) + (("after del", obs2),):
@@ -567,9 +589,21 @@ def _obs_brief(obs):
                 reader=repr(obs["reader"])[:200] if obs["reader_err"] is None else obs["reader_err"])
 
 
+BASE_OPS = ["WA", "WB", "F", "C", "X"]
+
+
 def histories(maxlen):
+    """all histories of <= maxlen operations over write A / write B / flush / close / with-exit; all of < maxlen
+    operations that also use the exit-by-exception; and, of length maxlen, every history that ENDS by it"""
     for n in range(0, maxlen + 1):
-        yield from itertools.product(OPS, repeat=n)
+        yield from itertools.product(BASE_OPS, repeat=n)
+    for n in range(1, maxlen):
+        for h in itertools.product(OPS, repeat=n):
+            if "E" in h:
+                yield h
+    if maxlen >= 1:
+        for h in itertools.product(OPS, repeat=maxlen - 1):
+            yield h + ("E",)
 
 
 def history_plan(tier):
@@ -628,7 +662,7 @@ def split_bare_empty_close(hist, count):
                 cur, flushed = 0, False
         elif op == "F":
             flushed = True
-        elif op == "X":
+        elif op in EXITS:
             open_ = False
         elif op in ("C", "Del"):
             if cur == 0 and not flushed:
@@ -687,8 +721,8 @@ def run_split(tname, hist, count, suf, workdir, via="writer", spelling="abs"):
                         w.flush()
                     elif op == "C":
                         w.close()
-                    elif op == "X":
-                        w.__exit__(None, None, None)
+                    elif op in EXITS:
+                        leave_with_block(w, op)
                     outs.append("Ok")
                 except Exception as e:  # noqa
                     outs.append("Raised")
@@ -734,7 +768,7 @@ def split_case(tname, hist, count, suf, workdir, via="writer", matrix=True, spel
         got_all += got
     if got_all != written and not (family == "sqlite"):
         problems.append("concatenation of the parts gives %s, written %s" % (got_all, written))
-    all_writes = all(op[0] == "W" for op in hist[:-1]) and hist and hist[-1] in ("C", "X") or via == "rdump"
+    all_writes = all(op[0] == "W" for op in hist[:-1]) and hist and hist[-1] in ("C",) + EXITS or via == "rdump"
     n = len(written)
     if matrix and all(o == "Ok" for o in outs):
         if m != n // count + 1:
@@ -784,14 +818,14 @@ def split_plan(tier):
     ns = list(range(0, 8)) + [10, 12] if tier == "quick" else list(range(0, 14)) + [20, 25, 101]
     counts = [1, 2, 3, 5] if tier == "quick" else [1, 2, 3, 4, 5, 7, 10]
     sufs = [0, 1, 2, 4]
-    for n, count, closing in itertools.product(ns, counts, ("X", "C", "Del")):
-        if tier == "quick" and n > 7 and closing != "X":
+    for n, count, closing in itertools.product(ns, counts, ("X", "E", "K", "C", "Del")):
+        if tier == "quick" and n > 7 and closing not in ("X", "E"):
             continue
         for suf in ([2] if (n + count) % 2 else sufs):
             plan.append(("stream", n, count, suf, closing, "writer"))
     others = [t for t in ("stream.gz", "stream.bz2", "stream.lz4", "stream.zst", "jsonfile", "csvfile", "avro") if t in tg]
     ns2 = [0, 1, 4, 5] if tier == "quick" else [0, 1, 2, 4, 5, 6, 9]
-    for t, n, closing in itertools.product(others, ns2, ("X", "C")):
+    for t, n, closing in itertools.product(others, ns2, ("X", "E", "C")):
         plan.append((t, n, 2, 2, closing, "writer"))
     for t in ["stream", "stream.gz", "jsonfile"] + (["stream.bz2", "jsonl"] if tier != "quick" else []):
         if t in tg:
@@ -802,7 +836,7 @@ def split_plan(tier):
     bare = [("stream", "bare"), ("stream", "bare+scheme"), ("stream.gz", "bare+scheme"), ("jsonl", "bare+scheme"),
             ("jsonfile", "bare+scheme"), ("jsonfile", "bare"), ("csvfile", "bare+scheme")]
     ns3 = [0, 1, 4, 5] if tier == "quick" else [0, 1, 2, 3, 4, 5, 6, 9, 23]
-    for (t, sp), n, closing in itertools.product(bare, ns3, ("X", "C")):
+    for (t, sp), n, closing in itertools.product(bare, ns3, ("X", "E", "C")):
         if t in tg and not (t == "jsonfile" and sp == "bare" and False):
             plan.append((t, n, 2, 2, closing, "writer", sp))
     for (t, sp), (n, count) in itertools.product(bare, ((5, 2), (6, 3)) if tier == "quick" else ((0, 3), (5, 2), (6, 3), (23, 5))):
@@ -946,7 +980,10 @@ def run_rotation(tkind, ops, clock_mode, pre_kind, workdir, archive=False):
             except Exception as e:  # noqa
                 outs.append("Raised")
                 errors.append("%s: %s" % (type(e).__name__, str(e)[:80]))
-        w.close()
+        if archive == "exc":      # the archive:// writer's with-block is left by an exception
+            leave_with_block(w, "E")
+        else:
+            w.close()
     finally:
         S.datetime = saved
     files1 = _observe_tree(d, family, codec)
@@ -1087,6 +1124,7 @@ def rotation_plan(tier):
         plan.append(("json", ops, "stepped", "target", False))
         if all(o != "C" for o in ops):
             plan.append(("daily", ops, "stepped", "none", True))       # through archive://
+            plan.append(("daily", ops, "stepped", "none", "exc"))      # ... its with-block left by an exception
             plan.append(("daily", ops, "frozen", "none", True))
     return plan
 
@@ -1130,11 +1168,19 @@ def plan_jobs(ctx):
         for hist in histories(maxlen):
             jobs.append((("history", root, (tname, hist)), ("history", tname, hist), len(hist) > 0))
     ctx.notes.append("histories: " + ", ".join("%s<=%d" % kv for kv in history_plan(ctx.tier).items()))
+    # leaving the with-block by KeyboardInterrupt, at every point of a short history, for every target
+    nk = 0
+    for tname in available_targets():
+        for n in range(0, (3 if ctx.tier == "quick" else 4) + 1):
+            for pre in itertools.product(["WA", "WB", "F"], repeat=n):
+                nk += 1
+                jobs.append((("history", root, (tname, pre + ("K",))), ("history", tname, pre + ("K",)), True))
+    ctx.notes.append("histories ended by KeyboardInterrupt inside the with-block: %d" % nk)
     # Avro: a write() that is refused half-way (unencodable text) must not disturb the records accepted around it
     npoison = 0
     if "avro" in available_targets():
         for n in range(1, (4 if ctx.tier == "quick" else 5) + 1):
-            for hist in itertools.product(["WA", "WP", "F", "C", "X"], repeat=n):
+            for hist in itertools.product(["WA", "WP", "F", "C", "X"] + (["E"] if n < 4 else []), repeat=n):
                 if "WP" in hist:
                     npoison += 1
                     jobs.append((("history", root, ("avro", hist)), ("history-refused-write", "avro", hist), True))
@@ -1231,7 +1277,8 @@ def search(ctx, reason):
 
 def run(ctx):
     ctx.coverage["rule"] = (
-        "bounded-exhaustive histories over {write A, write B, flush, close, with-exit} (then del) per adapter target "
+        "bounded-exhaustive histories over {write A, write B, flush, close, with-exit, with-block left by an exception "
+        "(Exception subclass; KeyboardInterrupt in a separate family)} (then del) per adapter target "
         "(stream plain/gz/bz2/lz4/zst, jsonfile, jsonl, avro, sqlite (batch 1000 and 2), csvfile, line, text); split matrix "
         "N x limit x suffix length x target x {with-exit, close, del} x {RecordWriter('split://'), rdump --split} x target spelling "
         "(absolute path, bare relative name, bare name behind split+<adapter>://) plus all small "
